@@ -1,5 +1,5 @@
 """Deep one-sided books: every arrival order (permutation) of n distinct price levels on one side,
-every single cancel, followed by (A) a sweep of n-2 levels in one round, (B) cancels of the two
+every single cancel, followed by (A) a sweep of k levels in one round for every k in 2..n-2, (B) cancels of the two
 best orders and a crossing order at the then-best level.  Run on the real Market through the
 Engine-M World with the property's monitors.  (Most heap-layout defects need >= 5-7 resting
 orders on one side in a particular arrival order -- out of reach of a depth-4 search from the
@@ -41,12 +41,15 @@ def fn(case, wit):
     worst = 100 if side else 100 + n - 1  # price that crosses every resting level
     for c in range(n):
         try:
-            # (A) cancel, then sweep n-2 levels in one round
-            w = _build(side, perm, _FACTORY)
-            w.apply(("C", c))
-            w.apply(("L", not side, worst, n - 2, None))
-            w.apply(("X",))
-            wit.merge(w.wit)
+            # (A) cancel, then sweep k levels in one round, for every k (the round's price is set by the LAST
+            # level reached, so whether an out-of-order level shows depends on where the sweep stops)
+            for k in range(2, n - 1):
+                w = _build(side, perm, _FACTORY)
+                w.apply(("C", c))
+                w.apply(("L", not side, worst, k, None))
+                w.apply(("X",))
+                wit.merge(w.wit)
+                wit.inc("deep_book_cases")
             # (B) cancel, cancel the two best, then cross the then-best level
             w = _build(side, perm, _FACTORY)
             w.apply(("C", c))
@@ -69,7 +72,7 @@ def fn(case, wit):
         except Violation as v:
             raise Violation(v.monitor, v.msg.split(" | ")[0], "deep book: %s side, arrival order of price levels %s, cancel #%d | %s" % (
                 "buy" if side else "sell", [100 + k for k in perm], c, v.msg.split(" | ", 1)[-1]))
-        wit.inc("deep_book_cases", 3)
+        wit.inc("deep_book_cases", 2)
     return (side, n)
 
 
